@@ -14,6 +14,7 @@ DECIDED += "; R12 source / destination are never swapped on the TCP send path (s
 DECIDED += "; R13 a FIN is never answered with a RST (closed stream; read half dropped)"
 DECIDED += "; R13 also: StreamSocket::buffer, which runs only while the stream's table entry exists, builds no RST (segments for a dropped read half are discarded; the open write direction is left alone)"
 DECIDED += '; R14 ReadHalf::put_slice decides from the bytes that remain after the copy whether something is stashed; the stream entry is released by the two Drop impls only (shared C12-R7)'
+DECIDED += '; R14 also: a read that copied stashed bytes returns without polling the channel again; every segment handed to StreamSocket::buffer enters the reorder buffer'
 ASSUMPTIONS = ["tokio mpsc::channel(n) holds exactly n items", "each direction of a stream has one WriteHalf (one FIN)"]
 
 SEG = "turmoil::envelope::Segment"
